@@ -168,8 +168,8 @@ def fam_setlist(tier, det):
     leaves = lambda e: [meth(X, "MAppend", e), meth(X, "MAdd", e), ("aug", X, "OAdd", e), ("aug", X, "OSub", e),  # noqa
                         meth(X, "MExtend", e), meth(Y, "MAppend", e), ("aug", X, "OBitOr", e), ("aug", Y, "OAdd", e)]
     out = []
-    for init in inits:
-        for e in elts:
+    for k, init in enumerate(inits):
+        for e in (elts if tier != "quick" or k < 4 else elts[:3]):
             for leaf in leaves(e):
                 out.append([asg(X, init), For(tn(I), N(IT), [leaf]), EV(N(X))])
     base_leaves = [meth(X, "MAppend", call(0, i)), ("aug", X, "OAdd", call(6, i)), meth(X, "MAdd", i)]
@@ -289,7 +289,11 @@ def fam_nested(tier, det):
     return out
 
 
-def expr_contexts(e):
+def expr_contexts(e, n=10):
+    yield from itertools.islice(_expr_contexts(e), n)
+
+
+def _expr_contexts(e):
     yield [asg(Y, e)]
     yield [asg(Y, bi("BList", e)), EV(N(Y))]
     yield [EV(e)]
@@ -306,13 +310,14 @@ def fam_redundant(tier, det):
     i, j = N(I), N(J)
     out = []
     its = [N(IT), call(5, C(1)), comp("CList", i, gen(tn(I), N(IT))), lst(C(1), C(2)), N(IT2)]
-    for it in its:
+    nctx = 4 if tier == "quick" else 10
+    for it in (its[:3] if tier == "quick" else its):
         for k in ("CList", "CSet", "CGen"):
             cands = [comp(k, i, gen(tn(I), it)), comp(k, i, gen(tn(I), it, i)), comp(k, j, gen(tn(I), it)),
                      comp(k, call(2, i), gen(tn(I), it)), comp(k, i, gen(tn(I), it), gen(tn(J), i)),
                      comp(k, ("seq", "KTuple", [i, j]), gen(tt(I, J), it)), comp(k, lst(i), gen(tn(I), it))]
             for c in cands:
-                for p in expr_contexts(c):
+                for p in expr_contexts(c, nctx):
                     out.append(p)
         dc = [comp("CDict", i, gen(tt(I, J), it), dval=j), comp("CDict", j, gen(tt(I, J), it), dval=i),
               comp("CDict", i, gen(tt(I, J), it, i), dval=j), comp("CDict", i, gen(tn(I), it), dval=i),
@@ -334,7 +339,7 @@ def fam_chained(tier, det):
                     for elt in (call(0, i), i):
                         inner = comp(ki, i, gen(tn(I), N(IT), *ifs_in))
                         e = comp(ko, elt, gen(tn(I), inner, *ifs_out))
-                        for p in list(expr_contexts(e))[:3 if ko != ki else 10]:
+                        for p in expr_contexts(e, 2 if ko != ki else (4 if tier == "quick" else 10)):
                             out.append(p)
     pair = ("seq", "KTuple", [i, j])
     for k in ("CList", "CGen"):
@@ -391,15 +396,20 @@ def fam_lambda(kind):
                   ("bin", "OAdd", i, C(1)), lst(i, N(X)), call(0, i, N(IT)), ("bool", False, [i, ("bool", True, [call(4, i), i])]),
                   ("not", ("bool", False, [i, call(0)])), ("neg", i), comp("CList", a, gen(tn(A), call(5, i)))]
         its = [N(IT), call(5, C(1)), lst(C(1), C(0), C(2))]
+        nctx = 4 if tier == "quick" else 10
         for body in bodies:
-            for it in its:
+            for it in (its[1:] if tier == "quick" else its):
                 if kind == "map":
                     es = [("map", I, body, it)]
                 else:
                     es = [("filter", False, I, body, it), ("filter", True, I, body, it)]
                 for e in es:
-                    for p in expr_contexts(e):
+                    for p in expr_contexts(e, nctx):
                         out.append(p)
+        # the remaining contexts once
+        for e in ([("map", I, call(0, i), N(IT))] if kind == "map" else
+                  [("filter", False, I, call(4, i), N(IT)), ("filter", True, I, call(4, i), N(IT))]):
+            out += list(expr_contexts(e))
         # nested
         if kind == "map":
             out.append([asg(Y, bi("BList", ("map", I, call(0, i), ("map", J, call(6, N(J)), N(IT)))))])
@@ -785,7 +795,7 @@ def check(run, mods, wd, rnd) -> dict:
     seen = set()
     for rid in RULES:
         fam = FAMILIES[rid](tier, det)
-        nrand = (60 if quick else 1500)
+        nrand = (40 if quick else 1500)
         progs = [(p, False) for p in fam] + [(rand_prog(rid, rnd), True) for _ in range(nrand)]
         for p, seeded in progs:
             try:
@@ -822,10 +832,9 @@ def check(run, mods, wd, rnd) -> dict:
     silent_quota = Counter()
     for rid, p, q, src, out, seeded in cases:
         progs = [p] if p == q else [p, q]
-        if p == q:
-            silent_quota[rid] += 1
-            if silent_quota[rid] % (6 if quick else 2):
-                continue
+        silent_quota[rid, p == q] += 1
+        if silent_quota[rid, p == q] % ((8 if quick else 2) if p == q else (2 if quick else 1)):
+            continue
         for prog in progs:
             s = T.prog_src(prog)
             if s in sem_seen:
